@@ -70,6 +70,13 @@ func (c *Crit) Eval(doc map[string]interface{}) bool {
 		return c.L.Eval(doc) || c.R.Eval(doc)
 	case "not":
 		return !c.L.Eval(doc)
+	case "isnil", "istrue", "isfalse":
+		v, p := Lookup(doc, c.Field)
+		want := map[string]interface{}{"isnil": nil, "istrue": true, "isfalse": false}[c.Op]
+		return p && Compare(v, want) == 0
+	case "isnilornotexists":
+		v, p := Lookup(doc, c.Field)
+		return !p || v == nil
 	case "exists":
 		_, p := Lookup(doc, c.Field)
 		return p
@@ -150,7 +157,7 @@ func (c *Crit) String() string {
 		return "(" + c.L.String() + " " + c.Op + " " + c.R.String() + ")"
 	case "not":
 		return "not(" + c.L.String() + ")"
-	case "exists", "notexists":
+	case "exists", "notexists", "isnil", "istrue", "isfalse", "isnilornotexists":
 		return c.Op + "(" + c.Field + ")"
 	case "in", "contains":
 		parts := make([]string, len(c.Vals))
@@ -416,7 +423,7 @@ func (c *Crit) Skel() string {
 		return "(" + c.L.Skel() + " " + c.Op + " " + c.R.Skel() + ")"
 	case "not":
 		return "not(" + c.L.Skel() + ")"
-	case "exists", "notexists", "like":
+	case "exists", "notexists", "like", "isnil", "istrue", "isfalse", "isnilornotexists":
 		return c.Op + "(" + c.Field + ")"
 	case "in", "contains":
 		parts := make([]string, len(c.Vals))
